@@ -453,6 +453,29 @@ def run(index, rep, tier):
                       "%s fills the distance table but never adds to `_all_distinct_mapped_taxa_pairs`, which mean_pairwise_distance(), distances() and sum_of_distances() iterate (%d readers): a matrix read back from CSV then has no pairs - mean_pairwise_distance raises NullAssemblageException and distances() is empty although every entry is there" % (m.qualname, len(readers)))
         rep.floor("R14.9", "compile functions filling the distance table", 2, ncomp)
 
+    # ---- R14.10 the CSV lists the taxa in namespace order
+    with rep.section("R14.10"):
+        rep.rule("R14.10", "the CSV lists taxa in namespace order: write_csv does not produce rows or columns by iterating a set of Taxon objects (hash = identity, i.e. address order) - from_csv without name row / column assigns row i to taxon_namespace[i], so the writer must walk the namespace")
+        PDMq = "dendropy.calculate.phylogeneticdistance.PhylogeneticDistanceMatrix"
+        pdm = index.klass(PDMq)
+        setattrs = {w.attr for m in pdm.methods.values() for w in writes_in(m.node) if w.kind == "store" and w.base is not None and norm(w.base) == "self" and w.value is not None and isinstance(w.value, ast.Call) and isinstance(w.value.func, ast.Name) and w.value.func.id == "set"}
+        wc = pdm.methods["write_csv"]
+        loops = [l for l in ast.walk(wc.node) if isinstance(l, (ast.For, ast.comprehension))]
+        nl = 0
+        for l in loops:
+            it = l.iter
+            txt = norm(it)
+            nl += 1
+            from_set = isinstance(it, ast.Attribute) and norm(it.value) == "self" and it.attr in setattrs
+            if isinstance(it, ast.Call) and isinstance(it.func, ast.Attribute) and norm(it.func.value) == "self" and it.func.attr in pdm.methods:
+                # an iterator method of the class: does it walk one of the sets?
+                callee = pdm.methods[it.func.attr]
+                from_set = any(isinstance(x, ast.For) and isinstance(x.iter, ast.Attribute) and norm(x.iter.value) == "self" and x.iter.attr in setattrs for x in ast.walk(callee.node))
+            rep.check(not from_set, "R14.10", wc.qualname, "CSV rows / columns produced by iterating a set: %s" % txt[:40], fn_where(wc, it), "write_csv: `%s` is not a set of taxa" % txt[:40],
+                      "PhylogeneticDistanceMatrix.write_csv produces its rows / columns by iterating `%s`, a set of Taxon objects (hashed by identity, so the order is address order and differs from run to run): a CSV written without name row and column is read back by from_csv with row i assigned to taxon_namespace[i], i.e. the distances land on other taxa - with names the file is still different on every run" % txt[:50])
+        rep.floor("R14.10", "loops in write_csv", 2, nl)
+        rep.floor("R14.10", "set-valued attributes of the matrix", 1, len(setattrs))
+
 
 def option_default_rule(index, rep, rid, cq, options):
     ci = index.klass(cq)
